@@ -118,7 +118,8 @@ def run_C13(ctx):
     st = ctx.vh("scan-replay", r.out, "selftest")
     ctx.selftest(st["n_mismatch"] == st["cases"], "C13 G: every corrupted expectation is reported")
     # the same exploration from directive starts reached through a prefix that leaves other entries on the scanner's stacks
-    for cx in (("tag", "explicit") if ctx.quick else ("respBody", "reqBody", "tag", "method", "typeBody", "explicit")):
+    for cx in (("tag", "explicit", "closedCR", "respBodyCR") if ctx.quick else
+               ("respBody", "reqBody", "tag", "method", "typeBody", "explicit", "closed", "closedCR", "methodCR", "respBodyCR", "explicitCR")):
         rx = ctx.tlc("MC_C13", cfg="MC_C13_%s.cfg" % cx, timeout=900, label="MC_C13(%s)" % cx)
         resx = ctx.vh("scan-replay", rx.out, env={"VH_DISTINCT": "len"})
         ctx.absorb(resx, "G:scan-replay(keywords, context %s)" % cx)
@@ -152,6 +153,10 @@ def run_C12(ctx):
     rc = ctx.tlc("MC_C12", cfg="MC_C12_comments.cfg" if ctx.quick else "MC_C12_comments_thorough.cfg", timeout=1800, label="MC_C12(comments)")
     resc = ctx.vh("scan-replay", rc.out, env={"VH_DISTINCT": "len"})
     ctx.absorb(resc, "G:scan-replay(comments)")
+    # a regex body and what follows it, in every line-break convention
+    rr = ctx.tlc("MC_C12", cfg="MC_C12_regex.cfg" if ctx.quick else "MC_C12_regex_thorough.cfg", timeout=1800, label="MC_C12(regex body)")
+    resr = ctx.vh("scan-replay", rr.out, env={"VH_DISTINCT": "len"})
+    ctx.absorb(resr, "G:scan-replay(regex body)")
     # what stands behind a schema body (explored without the VIEW: the dependency's look-ahead depends on what it has read)
     rb = ctx.tlc("MC_C12", cfg="MC_C12_bodytail.cfg" if ctx.quick else "MC_C12_bodytail_thorough.cfg", timeout=1800, label="MC_C12(body tail)")
     resb = ctx.vh("scan-replay", rb.out, env={"VH_DISTINCT": "len"})
@@ -231,6 +236,10 @@ def run_C07(ctx):
     st = ctx.vh("c07-replay", r.out, "selftest")
     ctx.selftest(st["n_mismatch"] >= st["cases"] * 0.95, "C07 G: corrupted verdicts / traces are reported")
     _include_contexts(ctx, "G:c07-replay(contexts across files)")
+    # build-phase errors (rule errors of types that refer to each other, validateCatalog errors) in split projects: MC_C09
+    r9 = ctx.tlc("MC_C09", cfg="MC_C09_quick.cfg" if ctx.quick else "MC_C09_thorough.cfg", timeout=3000)
+    res9 = ctx.vh("c09-replay", r9.out)
+    ctx.absorb(_only(res9, ["c07:", "c09:location"]), "G:c09-replay(places of build-phase errors in split projects)")
 
 
 def run_C14(ctx):
@@ -675,7 +684,9 @@ def run_C08(ctx):
     res2 = ctx.vh("c08-closure", r2.out)
     ctx.absorb(res2, "G:c08-closure")
     st2 = ctx.vh("c08-closure", r2.out, "selftest")
-    ctx.selftest(st2["n_mismatch"] >= 0.5 * st2["cases"], "C08 G: a damaged explicit form is noticed")
+    acc = (st2.get("counters") or {}).get("implicit-accepted", 0)
+    # (a damaged explicit form of a document that is rejected anyway is rejected too: only accepted documents count)
+    ctx.selftest(acc > 0 and st2["n_mismatch"] >= 0.9 * acc, "C08 G: a damaged explicit form of an accepted document is noticed")
     rd = ctx.tlc("MC_Desc", cfg="MC_Desc_quick.cfg" if ctx.quick else "MC_Desc_thorough.cfg", timeout=3000)
     resd = ctx.vh("desc-replay", rd.out, timeout=3000)
     ctx.absorb(resd, "G:desc-replay")
